@@ -93,7 +93,10 @@ func (ms *metaStore) loadMeta(bucket string, object string, size int64, mtime ti
 	var meta Metadata
 	if len(bts) > 0 {
 		if err := json.Unmarshal(bts, &meta); err != nil {
-			return nil, err
+			// A metadata file cut short by a crash is of no more use than a
+			// missing one; it is rebuilt from the object below instead of
+			// failing every request that touches the key from now on:
+			meta = Metadata{}
 		}
 	}
 
